@@ -228,74 +228,93 @@ func errText(err error) string {
 
 // Canon renders a value as a canonical tree text: type-exact, floats bit-wise, dict keys
 // sorted, functions by (name, params, body text), computed values by (expr, attributes).
-func Canon(v *ds.VMValue) string { return canonD(v, 0) }
+// Containers are memoised (shared sub-structure is rendered once) and cycles are cut, so
+// wide DAGs and cyclic values cost linear time.
+func Canon(v *ds.VMValue) string { return newCanon().val(v) }
 
-func canonD(v *ds.VMValue, depth int) string {
+type canonC struct {
+	memo map[any]string
+	on   map[any]bool
+}
+
+func newCanon() *canonC { return &canonC{memo: map[any]string{}, on: map[any]bool{}} }
+
+func (c *canonC) val(v *ds.VMValue) string {
 	if v == nil {
 		return "NIL"
 	}
-	if depth > 24 {
-		return "…"
-	}
 	switch v.TypeId {
 	case ds.VMTypeInt:
-		i, _ := v.ReadInt()
+		i, ok := v.ReadInt()
+		if _, isInt := v.Value.(ds.IntType); !isInt || !ok {
+			return "i?"
+		}
 		return fmt.Sprintf("i%d", int64(i))
 	case ds.VMTypeFloat:
-		f, _ := v.ReadFloat()
+		f, _ := v.Value.(float64)
 		if f != f {
 			return "fNaN"
 		}
-		return fmt.Sprintf("f%x", mathFloat64bits(f))
+		return fmt.Sprintf("f%x", math.Float64bits(f))
 	case ds.VMTypeString:
-		s, _ := v.ReadString()
+		s, _ := v.Value.(string)
 		return fmt.Sprintf("s%q", s)
 	case ds.VMTypeNull:
 		return "n"
 	case ds.VMTypeArray:
-		a, ok := v.ReadArray()
+		a, ok := v.Value.(*ds.ArrayData)
 		if !ok || a == nil {
 			return "[?]"
 		}
+		if s, ok := c.memo[a]; ok {
+			return s
+		}
+		if c.on[a] {
+			return "<cycle>"
+		}
+		c.on[a] = true
 		parts := make([]string, 0, len(a.List))
 		for _, e := range a.List {
-			parts = append(parts, canonD(e, depth+1))
+			parts = append(parts, c.val(e))
 		}
-		return "[" + strings.Join(parts, ",") + "]"
+		delete(c.on, a)
+		s := "[" + strings.Join(parts, ",") + "]"
+		c.memo[a] = s
+		return s
 	case ds.VMTypeDict:
-		dd, ok := v.ReadDictData()
+		dd, ok := v.Value.(*ds.DictData)
 		if !ok || dd == nil || dd.Dict == nil {
 			return "{?}"
 		}
-		return canonMapD(dd.Dict, depth+1)
+		return c.vmap(dd.Dict)
 	case ds.VMTypeFunction:
-		fd, ok := v.ReadFunctionData()
+		fd, ok := v.Value.(*ds.FunctionData)
 		if !ok || fd == nil {
 			return "fn?"
 		}
 		return fmt.Sprintf("fn(%s|%s|%q)", fd.Name, strings.Join(fd.Params, ","), fd.Expr)
 	case ds.VMTypeComputedValue:
-		cd, ok := v.ReadComputed()
+		cd, ok := v.Value.(*ds.ComputedData)
 		if !ok || cd == nil {
 			return "cv?"
 		}
 		at := "{}"
 		if cd.Attrs != nil {
-			at = canonMapD(cd.Attrs, depth+1)
+			at = c.vmap(cd.Attrs)
 		}
 		return fmt.Sprintf("cv(%q|%s)", cd.Expr, at)
 	case ds.VMTypeNativeFunction:
-		fd, ok := v.ReadNativeFunctionData()
+		fd, ok := v.Value.(*ds.NativeFunctionData)
 		if !ok || fd == nil {
 			return "nfn?"
 		}
 		self := ""
 		if fd.Self != nil {
-			self = "@" + canonD(fd.Self, depth+1)
+			self = "@" + c.val(fd.Self)
 		}
 		return "nfn(" + fd.Name + self + ")"
 	case ds.VMTypeNativeObject:
-		od, ok := v.ReadNativeObjectData()
+		od, ok := v.Value.(*ds.NativeObjectData)
 		if !ok || od == nil {
 			return "nobj?"
 		}
@@ -304,12 +323,16 @@ func canonD(v *ds.VMValue, depth int) string {
 	return fmt.Sprintf("t%d", v.TypeId)
 }
 
-func canonMapD(m *ds.ValueMap, depth int) string {
-	if depth > 24 {
-		return "…"
+func (c *canonC) vmap(m *ds.ValueMap) string {
+	if s, ok := c.memo[m]; ok {
+		return s
 	}
+	if c.on[m] {
+		return "<cycle>"
+	}
+	c.on[m] = true
 	mm := map[string]string{}
-	m.Range(func(k string, e *ds.VMValue) bool { mm[k] = canonD(e, depth+1); return true })
+	m.Range(func(k string, e *ds.VMValue) bool { mm[k] = c.val(e); return true })
 	keys := make([]string, 0, len(mm))
 	for k := range mm {
 		keys = append(keys, k)
@@ -319,13 +342,15 @@ func canonMapD(m *ds.ValueMap, depth int) string {
 	for _, k := range keys {
 		parts = append(parts, fmt.Sprintf("%q:%s", k, mm[k]))
 	}
-	return "{" + strings.Join(parts, ",") + "}"
+	delete(c.on, m)
+	s := "{" + strings.Join(parts, ",") + "}"
+	c.memo[m] = s
+	return s
 }
 
 // CanonVars renders the variables of a VM.
-func CanonVars(vm *ds.Context) string { return canonMapD(vm.Attrs, 0) }
+func CanonVars(vm *ds.Context) string { return newCanon().vmap(vm.Attrs) }
 
-func mathFloat64bits(f float64) uint64 { return math.Float64bits(f) }
 
 // StLog records CallbackSt invocations.
 type StLog struct{ Calls []string }
